@@ -87,6 +87,26 @@ impl Prop for C01 {
                     g.val(depth)
                 };
                 out.push(format!("enc {} {}", v.type_name(), v.tree()));
+                // decode what was encoded under option sets in which the limits DIFFER from each other:
+                // every limit exactly at the value's own extent (so a ByteString longer than the longest
+                // string, an array longer than both, … each sit at their own limit and above the others'),
+                // then one limit at a time raised to a value at / beyond the i32 and u32 boundaries
+                {
+                    let e = Extent::of(&v);
+                    let tight = Lim { max_str: e.max_str, max_bytes: e.max_bytes, max_arr: e.max_arr, max_depth: e.nest, max_msg: 0, named: 0 };
+                    if valid(&v) {
+                        out.push(format!("lim {} {} {}", v.type_name(), tight.show(), v.tree()));
+                        let h = *rng.pick(&HUGE_LIMITS);
+                        let skew = match rng.below(5) {
+                            0 => Lim { max_str: h, ..tight },
+                            1 => Lim { max_bytes: h, ..tight },
+                            2 => Lim { max_arr: h, ..tight },
+                            3 => Lim { max_depth: h as u64, ..tight },
+                            _ => Lim { max_str: h, max_bytes: *rng.pick(&HUGE_LIMITS), max_arr: *rng.pick(&HUGE_LIMITS), max_depth: *rng.pick(&HUGE_LIMITS) as u64, max_msg: 0, named: 0 },
+                        };
+                        out.push(format!("lim {} {} {}", v.type_name(), skew.show(), v.tree()));
+                    }
+                }
                 // tie the decoder: the encoding itself (default options) and a mutation of it
                 let bytes = v.try_encode().unwrap_or_default();
                 if !bytes.is_empty() && bytes.len() <= 4000 {
@@ -133,6 +153,16 @@ impl Prop for C01 {
 }
 
 struct R;
+
+fn cmp3(a: usize, b: usize) -> &'static str {
+    if a < b {
+        "<"
+    } else if a > b {
+        ">"
+    } else {
+        "="
+    }
+}
 
 fn class_of(v: &Val) -> &'static str {
     let empty_dims = match v {
@@ -282,6 +312,38 @@ impl Runner for R {
                 let verdict = match out {
                     Some(Ok((_, re, len, rep))) => struct_stable(name, &re, len, rep),
                     _ => Verdict::Ok,
+                };
+                (line, verdict)
+            }
+            ["lim", ty, opts, tree @ ..] => {
+                let (lim, v) = match (Lim::parse(opts), p_val(ty, tree)) {
+                    (Some(l), Some(v)) => (l, v),
+                    _ => return ("bad-op".to_string(), Verdict::Ok),
+                };
+                let bytes = match v.try_encode() {
+                    Some(b) => b,
+                    None => return ("err".to_string(), Verdict::Ok),
+                };
+                let (line, out) = run_dec(ty, &lim, &bytes);
+                // the round trip holds under EVERY option set the value is within (not only generous ones)
+                let e = Extent::of(&v);
+                let class = format!("limits-str{}-bytes{}-arr{}", cmp3(lim.max_str, lim.max_bytes), cmp3(lim.max_bytes, lim.max_arr), cmp3(lim.max_arr, lim.max_str));
+                let verdict = if !valid(&v) || !e.within(&lim) || e.nest > lim.max_depth {
+                    Verdict::Ok
+                } else {
+                    match out {
+                        DecOut::Ok(v2, pos) => {
+                            if pos != bytes.len() {
+                                Verdict::fail("consumed_exactly", &class, format!("consumed {} of {}", pos, bytes.len()))
+                            } else if v2.tree() != norm(&v).tree() {
+                                Verdict::fail("value_equal", &class, format!("got {} want {}", v2.tree(), norm(&v).tree()))
+                            } else {
+                                Verdict::Ok
+                            }
+                        }
+                        DecOut::Err => Verdict::fail("decodes", &class, format!("own encoding rejected although {:?} is within {:?}", e, lim)),
+                        _ => Verdict::Ok,
+                    }
                 };
                 (line, verdict)
             }
